@@ -30,6 +30,10 @@ class PathAbort(Exception):
     """Current path is infeasible or cut (assumption false, loop-body path finished)."""
 
 
+class PathDone(Exception):
+    """The path ends here normally (e.g. after the preservation check of a loop body); obligations are kept."""
+
+
 class PyExc(Exception):
     """A Python exception raised by the interpreted program."""
     def __init__(self, obj):
@@ -137,11 +141,72 @@ class NDArr:
 
 
 class SymSeq:
-    """Sequence of symbolic length: (len: Int term, at: python callable Int term -> value)."""
-    def __init__(self, length, at, name='seq'):
+    """Sequence of symbolic length: (len: Int term, at: python callable Int term -> value).
+    Mutable through append (the list object keeps its identity)."""
+    def __init__(self, length, at, name='seq', origin='fresh'):
         self.length = length
         self.at = at
         self.name = name
+        self.origin = origin
+
+    def append(self, x):
+        old_at, old_len = self.at, self.length
+        self.at = lambda i: ite_value(i == old_len, x, old_at(i))
+        self.length = z3.simplify(old_len + 1)
+
+
+def seq_view(v):
+    """View a concrete list/tuple as a SymSeq (for invariants that speak about both)."""
+    if isinstance(v, SymSeq):
+        return v
+    if isinstance(v, (list, tuple)):
+        items = list(v)
+
+        def at(i):
+            if not items:
+                raise Unsupported('element of an empty list')
+            out = items[-1]
+            for k in range(len(items) - 2, -1, -1):
+                out = ite_value(i == k, items[k], out)
+            return out
+        return SymSeq(z3.IntVal(len(items)), at, 'list')
+    return None
+
+
+def ite_value(c, a, b):
+    """Structural if-then-else over interpreter values."""
+    c = z3.simplify(c) if is_z3(c) else c
+    if c is True or (is_z3(c) and z3.is_true(c)):
+        return a
+    if c is False or (is_z3(c) and z3.is_false(c)):
+        return b
+    if isinstance(a, tuple) and isinstance(b, tuple) and len(a) == len(b):
+        return tuple(ite_value(c, x, y) for x, y in zip(a, b))
+    if isinstance(a, Obj) and isinstance(b, Obj):
+        if a is b:
+            return a
+        if a.cls is b.cls and set(a.fields) == set(b.fields):
+            return Obj(a.cls, {k: ite_value(c, a.fields[k], b.fields[k]) for k in a.fields}, a.origin)
+        raise Unsupported('ite over objects of different shape')
+    if a is None and b is None:
+        return None
+    if a is b:
+        return a
+    if (is_z3(a) or isinstance(a, (int, float, bool, str))) and (is_z3(b) or isinstance(b, (int, float, bool, str))):
+        x, y = a, b
+        if isinstance(a, str) or isinstance(b, str) or (is_z3(a) and z3.is_string(a)):
+            return z3.If(c, z3_of(x), z3_of(y))
+        if isinstance(a, bool) or isinstance(b, bool) or (is_z3(a) and z3.is_bool(a)):
+            return z3.If(c, z3_of(x), z3_of(y))
+        x, y = num_pair(x, y)
+        return z3.If(c, x, y)
+    raise Unsupported('ite over %r / %r' % (a, b))
+
+
+class StarSeq:
+    """*seq in a call where seq has symbolic length."""
+    def __init__(self, seq):
+        self.seq = seq
 
 
 class Env:
@@ -265,6 +330,34 @@ class Ctx:
             return z3.String(full)
         return z3.Const(full, sort)
 
+    def fresh_fn(self, name, *sorts):
+        n = self.counters.get(name, 0)
+        self.counters[name] = n + 1
+        full = '%s!%d' % (name, n) if n else name
+        return z3.Function(full, *sorts)
+
+    def assume_forall(self, vars_, body, label=''):
+        """Record a universally quantified assumption as a schema.  It constrains nothing until instantiated
+        (instantiate()); using only ground instances keeps every query quantifier-free and is sound for proving."""
+        if not hasattr(self, 'schemas'):
+            self.schemas = []
+        self.schemas.append((list(vars_), body, label))
+
+    def instantiate(self, terms):
+        """Add all ground instances of the recorded schemas over the given index terms."""
+        import itertools
+        terms = [z3.IntVal(t) if isinstance(t, int) else t for t in terms]
+        seen = getattr(self, '_inst_seen', set())
+        self._inst_seen = seen
+        for k, (vs, body, label) in enumerate(getattr(self, 'schemas', [])):
+            for combo in itertools.product(terms, repeat=len(vs)):
+                key = (k,) + tuple(t.get_id() for t in combo)
+                if key in seen:
+                    continue
+                seen.add(key)
+                inst = z3.substitute(body, *zip(vs, combo))
+                self.assume(inst)
+
     def assume(self, f):
         if f is True:
             return
@@ -341,7 +434,8 @@ class Ctx:
         try:
             self.assume(goal)
         except PathAbort:
-            raise
+            # the goal is literally false: the obligation is kept (it will be refuted), the path ends here
+            raise PathDone()
 
     def effect(self, kind, *data):
         self.effects.append((kind,) + data)
@@ -1155,7 +1249,13 @@ class Interp:
 
     # comprehensions
     def e_ListComp(self, node, env):
-        return list(self.comp_iter(node, node.elt, env))
+        first = self.eval(node.generators[0].iter, env)
+        sv = first if isinstance(first, SymSeq) else self.world.as_symseq(self, first)
+        if sv is not None:
+            if len(node.generators) != 1:
+                raise Unsupported('nested comprehension over a symbolic sequence')
+            return self.world.comp_hook(self, node, sv, env)
+        return list(self.comp_iter(node, node.elt, env, first))
 
     def e_SetComp(self, node, env):
         return self.make_set(list(self.comp_iter(node, node.elt, env)))
@@ -1169,7 +1269,7 @@ class Interp:
             self.dict_set(d, k, v)
         return d
 
-    def comp_iter(self, node, elt, env):
+    def comp_iter(self, node, elt, env, first=None):
         sub = Env(dict(), env.func, env, env.module, set())
 
         def rec(i):
@@ -1180,7 +1280,10 @@ class Interp:
                     yield self.eval(elt, sub)
                 return
             g = node.generators[i]
-            it = self.eval(g.iter, sub if i else env)
+            if i == 0 and first is not None:
+                it = first
+            else:
+                it = self.eval(g.iter, sub if i else env)
             for x in self.iterate(it):
                 self.assign(g.target, x, sub)
                 if all(self.truth(self.eval(c, sub)) for c in g.ifs):
@@ -1215,6 +1318,8 @@ class Interp:
             return self.permute(v.items)
         if isinstance(v, NDArr):
             return self.world.nd_iter(self, v)
+        if isinstance(v, SymSeq):
+            raise Unsupported('iteration over a sequence of symbolic length (%s) needs a loop/fold contract' % v.name)
         if hasattr(v, '__next__'):
             return v
         h = self.world.iter_hook(self, v)
@@ -1247,7 +1352,11 @@ class Interp:
         args = []
         for a in node.args:
             if isinstance(a, ast.Starred):
-                args.extend(self.iterate(self.eval(a.value, env)))
+                sv = self.eval(a.value, env)
+                if isinstance(sv, SymSeq):
+                    args.append(StarSeq(sv))
+                else:
+                    args.extend(self.iterate(sv))
             else:
                 args.append(self.eval(a, env))
         kwargs = {}
@@ -1515,6 +1624,9 @@ class Interp:
 
     def s_For(self, node, env):
         it = self.eval(node.iter, env)
+        sv = self.world.as_symseq(self, it)
+        if sv is not None:
+            it = sv
         h = self.world.loop_hook(self, node, it, env)
         if h is not NotImplementedVal:
             return
